@@ -8,7 +8,7 @@
    distributions with a lambda-dependent singular part) and everything neutral-current (LeProHQ, third party): those are
    compared on real runs only. *)
 From Coq Require Import Reals ZArith List Bool String.
-From Yad Require Import Base Couplings Weights Combiner FFN0Theorems Expr GluonLimit.
+From Yad Require Import Base Couplings Weights Combiner FFN0Theorems Expr GluonLimit QuarkLimit.
 From YadGen Require Import InstKernels.
 Import ListNotations.
 
@@ -52,3 +52,27 @@ Theorem C08_gluon_F3_limit sp z l : 0 < z < 1 -> 1 / 2 <= l < 1 ->
   <= (1 - l) * (2 * / (1 - z) + 2 + 4 * (- ln (1 - z) - ln z) + 5 * (- ln (1 - l))).
 Proof. exact (gluon_f3_limit sp z l). Qed.
 Print Assumptions C08_gluon_F3_limit.
+
+(* ---- analytic half, CC quark channel at LO ("slow rescaling"): for every bounded Lipschitz PDF f the massive contribution
+   cp * loc(lambda) * f(cp), cp = x/lambda, tends to the asymptotic one x f(x) (F2, F3; FL has no LO term) like 1 - lambda.
+   Convolution point and local coefficients are the regenerated expressions *)
+Theorem C08_quark_LO_F2 (f : R -> R) (M L : R) : (forall u, Rabs (f u) <= M) -> (forall u v, Rabs (f u - f v) <= L * Rabs (u - v)) ->
+  forall sp x l, 0 < x < 1 -> 1 / 2 <= l < 1 ->
+  let cp := eval sp iv_heavy_f2_cc_NonSinglet_convolution_point x [l] in
+  Rabs (cp * eval sp ik_heavy_f2_cc_NonSinglet_LO_loc cp [l] * f cp - x * eval sp ik_asy_f2_cc_AsyQuark_LO_loc x [ln (l / (1 - l))] * f x)
+  <= (1 - l) * (2 * M + 2 * L).
+Proof. exact (quark_lo_F2 f M L). Qed.
+Print Assumptions C08_quark_LO_F2.
+Theorem C08_quark_LO_FL (f : R -> R) (M : R) : (forall u, Rabs (f u) <= M) ->
+  forall sp x l, 0 < x < 1 -> 1 / 2 <= l < 1 ->
+  let cp := eval sp iv_heavy_fl_cc_NonSinglet_convolution_point x [l] in
+  Rabs (cp * eval sp ik_heavy_fl_cc_NonSinglet_LO_loc cp [l] * f cp) <= (1 - l) * (2 * M).
+Proof. exact (quark_lo_FL f M). Qed.
+Print Assumptions C08_quark_LO_FL.
+Theorem C08_quark_LO_F3 (f : R -> R) (L : R) : (forall u v, Rabs (f u - f v) <= L * Rabs (u - v)) ->
+  forall sp x l, 0 < x < 1 -> 1 / 2 <= l < 1 ->
+  let cp := eval sp iv_heavy_f3_cc_NonSinglet_convolution_point x [l] in
+  Rabs (cp * eval sp ik_heavy_f3_cc_NonSinglet_LO_loc cp [l] * f cp - x * eval sp ik_asy_f3_cc_AsyQuark_LO_loc x [ln (l / (1 - l))] * f x)
+  <= (1 - l) * (2 * L).
+Proof. exact (quark_lo_F3 f L). Qed.
+Print Assumptions C08_quark_LO_F3.
